@@ -376,6 +376,17 @@ def check_line(line):
         msgs.append("unfolding does not restore the line")
     if str(Contentline.from_ical(Contentline(line).to_ical())) != line:
         msgs.append("Contentline.from_ical(to_ical()) differs")
+    # the same line inside a list of lines (Contentlines.to_ical / from_ical: what Component.to_ical and from_ical use)
+    if line and not line.startswith((" ", "\t")):
+        try:
+            data = Contentlines([Contentline("BEGIN:X"), Contentline(line), Contentline("END:X")]).to_ical()
+            back = [str(x) for x in Contentlines.from_ical(data)]
+            if back != ["BEGIN:X", line, "END:X", ""]:
+                msgs.append(f"Contentlines.from_ical(Contentlines([.., line, ..]).to_ical()) gives {back!r}")
+            if data != Contentline("BEGIN:X").to_ical() + b"\r\n" + Contentline(line).to_ical() + b"\r\n" + Contentline("END:X").to_ical() + b"\r\n":
+                msgs.append("Contentlines.to_ical is not the CRLF-joined lines")
+        except Exception as e:  # noqa
+            msgs.append(f"Contentlines round trip raises {type(e).__name__}: {e}")
     return msgs
 
 
